@@ -63,6 +63,7 @@ type irLet struct{ Var, Ty, Fmt string }
 type irStmtCall struct {
 	Lets  []irLet
 	NArgs int
+	Guard string // optional Lean Bool term (same arguments): when false the Go call panics
 }
 
 type irSpec struct {
@@ -88,11 +89,144 @@ type irSpec struct {
 	StmtMethods map[string]irStmtCall // "T.m" used as a statement
 	StmtFuncs   map[string]irStmtCall // printed callee used as a statement
 
+	// optional extensions (all default to the previous behaviour when unset)
+	StrTy      string            // type name of Go strings / string literals (default "String")
+	StrLitFmt  string            // Lean term of a string literal, %s = quoted literal (default: the literal itself)
+	CharTy     string            // type name of rune/byte literals; "" = character literals unsupported
+	CharFmt    string            // Lean term of a character literal, %d = its code point
+	Zero       map[string]string // zero values of configured types (for `var x T`)
+	SliceRange map[string]irCall // by type: x[lo:hi] (%[1]s x, %[2]s lo, %[3]s hi)
+	SliceTo    map[string]irCall // by type: x[:hi]  (%[1]s x, %[2]s hi)
+	// StmtHook translates bespoke statement patterns into a list of `let`s on tracked variables
+	// (Var = Lean name of a tracked variable or a fresh auxiliary name); ok=false: not handled.
+	StmtHook func(t *irT, s ast.Stmt, env *irEnv) (lets []irLet, ok bool, err error)
+
 	Ignore func(src string, s ast.Stmt) bool
 	Ret    func(vals []irTerm) (string, error)
 	Panic  string // Lean term for `panic(…)`; "" = unsupported
 	Hook   func(t *irT, e ast.Expr, env *irEnv) (irTerm, bool, error)
+
+	// --- optional extensions (all zero values = previous behaviour) ---------------------------
+	// Closure: the function body is exactly `return func(<params>) <results> { … }`; the closure's
+	// body is what is translated, the outer receiver / parameters stay bound, the closure's
+	// parameters are bound by position like Params.
+	Closure *irClosure
+	// NumOps: additional numeric types (e.g. an opaque float) with their own operator terms.
+	NumOps map[string]irNumOps
+	// (Zero, declared above, is shared: zero values of configured types for `var x T`.)
+	// EffFuncs / EffMethods: calls with an effect on state variables, used in expression position of
+	// a simple statement (`x = f(a)`, `x := f(a)`, `return f(a)`). Keys: printed callee, or
+	// "(T)" when the callee is a local / parameter of type T; "T.m" for methods.
+	EffFuncs   map[string]irEffCall
+	EffMethods map[string]irEffCall
+	// SelectComm: the communication clauses a `select` may have. The statement is desugared, in the
+	// order of this table, into `if §select(0) { <Stmt0>(args); body0 } else if … else { <StmtN>(args); bodyN }`;
+	// `§select` must be configured in Funcs (the environment's choice oracle) and every Stmt in StmtFuncs.
+	SelectComm []irComm
+	// AllowShadow: `x := …` that shadows a variable of an outer scope (also in an if-init) declares a
+	// fresh Lean local instead of failing.
+	AllowShadow bool
+	// DeferInline (resil): the first top-level `defer func() {…}()` is inlined in front of every later
+	// return and into the panic branch of every later partial call (see irInlineDefer).
+	DeferInline bool
+	// RangeKV: Go maps modelled as association lists. Collection type name → {key type, value type}:
+	// `for k, v := range m` (k / v may be `_`, v may be absent) iterates over the Lean list of pairs in list
+	// order (Go's order is unspecified: a theorem about the result must not depend on it).
+	RangeKV map[string][2]string
+	// Ext: see irSpecExt (range with index, comma-ok index, named results, downward counted loops).
+	Ext irSpecExt
 }
+
+// irSpecExt: further optional extensions (engineer pipe, C02); zero values = previous behaviour.
+type irSpecExt struct {
+	// RangeKeyTy: type of the index variable of `for i := range xs` / `for i, x := range xs`
+	// ("Int" when empty). Inside such a loop `xs[i]` / `&xs[i]` (same printed collection, the loop's
+	// own index variable, collection not assigned in the body) is the current element.
+	RangeKeyTy string
+	// IndexOk: `v, ok := m[k]` by collection type; Fmt(m, k) must have a product type "V × Bool".
+	IndexOk map[string]irCall
+	// NamedResults: accept a function with named results. "ignore": they are NOT bound (any use of
+	// them fails the extraction as an unknown identifier); "bind": they are locals initialised with
+	// their zero values (a naked `return` is still unsupported).
+	NamedResults string
+	// ParamKeepsBinderName: a Go parameter that is assigned becomes a local named like its Lean binder
+	// (not like the Go parameter), so that renaming the Go parameter gives the same definition.
+	ParamKeepsBinderName bool
+	// GoInline (engineer cluster, C17): a top-level `go func() { B }()` (no parameters, arguments or
+	// results, no `return` inside B, followed only by `return` statements) for which the predicate
+	// holds is translated as the block B in place. The effects of B must be configured as *recorded*
+	// effects (StmtMethods appending to a state variable that stands for "what the spawned goroutine
+	// will do"), since the goroutine runs later; the captured variables are not assigned after the
+	// `go` statement (checked), so their values are those at the spawn.
+	GoInline func(src string, g *ast.GoStmt) bool
+	// LenBoundElemSet (engineer auth11, C11): a counted loop `for i := a; i < len(xs); i++` may assign
+	// *elements* `xs[j] = v` in its body (the length, evaluated once as the fuel, cannot change); any
+	// other assignment to xs in the body still fails the extraction.
+	LenBoundElemSet bool
+	// InlineClosures (engineer mux, C01/C05/C12): a non-escaping local closure `f := func(p T) R { … }` (at
+	// most one result, used only as the callee of calls) is inlined at each call of the shapes
+	// `x := f(a)` / `x = f(a)` / `f(a)` / `if [!]f(a) { … }`: the parameters are bound to the arguments, the
+	// body is translated in place against the call site's environment (captured variables are read and
+	// assigned there), every `return v` of the body binds the result and continues after the call.
+	InlineClosures bool
+	// Composite (engineer mux): composite literals by printed type, "T" for `T{…}` and "&T" for `&T{…}`
+	// (keyed fields only): see irComposite.
+	Composite map[string]irComposite
+	// HookAssigns (engineer mqtt, C14): the merge analysis `assigned()` also asks irSpec.StmtHook; the tracked
+	// variables its lets name count as assigned (without it a hooked statement inside an `if` / loop body is
+	// invisible to the analysis and its effect on an outer variable would be lost in the merge).
+	HookAssigns bool
+}
+
+// irComposite: Keys = the struct's field names in the order of Fmt's arguments (%[1]s …); a field absent
+// from the literal takes Zero[field] (a Lean term); Types[field] = required type name of a present field.
+type irComposite struct {
+	Keys  []string
+	Types map[string]string
+	Zero  map[string]string
+	Wrap  map[string]string // optional: Lean term of a present field, %s = the translated value (e.g. "(some %s)")
+	Fmt   string
+	Ty    string
+}
+
+// irClosure: Params = the closure's parameters by position. Local: the closure is not returned but is
+// the first top-level `x := func(…) … {…}` of the body; the statements before it are translated only to
+// learn which variables are in scope (their output is dropped), and those whose type is a key of
+// FreeByTy become usable inside the closure as the given Lean term (all others stay unusable).
+// AsLocals: the closure's parameters are bound as locals (`let <name> : T := <term>` in front), so that
+// they may be assigned inside branches.
+type irClosure struct {
+	Params   []irTerm
+	Local    bool
+	FreeByTy map[string]string
+	AsLocals bool
+}
+
+// irNumOps: operator formats (two %s) of a configured numeric type; "" = unsupported. OfInt / OfFloat
+// convert an untyped integer / floating-point literal (OfFloat gets mantissa and decimal exponent:
+// 1.5 = 15·10⁻¹).
+type irNumOps struct {
+	Add, Sub, Mul, Quo string
+	Lt, Le             string
+	OfInt              string // one %s
+	OfFloat            string // %[1]s mantissa, %[2]s exponent
+}
+
+// irEffCall: the Pre lets are emitted before the statement that contains the call (Var / Fmt are
+// formatted with the translated arguments, receiver first for methods; "§tmp" is replaced by a fresh
+// name); Fmt / Ty give the value of the call.
+type irEffCall struct {
+	NArgs int
+	Pre   []irLet
+	Fmt   string
+	Ty    string
+	Guard string // optional Lean Bool term (formatted like Fmt): when false the call panics
+}
+
+// irComm: one communication clause of a select: Key = "<-" + callee ("<-T.m" when the receiver
+// translates to type T, else the printed callee, e.g. "<-time.After"); the call's arguments are passed on
+// to the synthetic statement Stmt (a StmtFuncs key).
+type irComm struct{ Key, Stmt string }
 
 // ---------------------------------------------------------------------------
 // environment (immutable; every declaration makes a copy)
@@ -103,6 +237,7 @@ type irVar struct {
 	Depth int
 	Param bool // bound by the definition's binders, not a local
 	Alias *irAlias
+	Closure *ast.FuncLit // irSpecExt.InlineClosures: a local closure (no Lean value; inlined at its calls)
 }
 
 // irAlias: `b := &xs[i]` — b is a pointer into a tracked collection. Reads go through the current
@@ -151,7 +286,7 @@ func (e *irEnv) keyOfLean(name string) (string, bool) {
 func (e *irEnv) locals() []irVar {
 	var out []irVar
 	for _, k := range e.order {
-		if v := e.vars[k]; !v.Param {
+		if v := e.vars[k]; !v.Param && v.Closure == nil {
 			out = append(out, v)
 		}
 	}
@@ -163,9 +298,60 @@ func (e *irEnv) locals() []irVar {
 type irK func(ind string) (string, error)
 type irNext func(env *irEnv, ind string) (string, error)
 
+// irRange: an enclosing range loop with an index variable (irSpecExt.RangeKeyTy).
+type irRange struct {
+	CollSrc  string // printed range expression
+	Key      string // Go name of the index variable
+	ElemLean string // Lean name of the current element
+	ElemTy   string
+}
+
+// rangeElem: e is `xs[i]` for an enclosing `for i := range xs` (same printed xs, i still the loop's
+// own index variable): the current element. The loop checked that xs is not assigned in its body.
+func (t *irT) rangeElem(e ast.Expr, env *irEnv) (irTerm, bool) {
+	ie, ok := irUnparen(e).(*ast.IndexExpr)
+	if !ok {
+		return irTerm{}, false
+	}
+	id, ok := irUnparen(ie.Index).(*ast.Ident)
+	if !ok {
+		return irTerm{}, false
+	}
+	src := t.r.Src(ie.X)
+	for i := len(t.ranges) - 1; i >= 0; i-- {
+		r := t.ranges[i]
+		if r.Key == id.Name && r.CollSrc == src {
+			if v, ok := env.vars[id.Name]; ok && v.Param && v.Lean == irIdent(r.Key) {
+				return irTerm{r.ElemLean, r.ElemTy}, true
+			}
+		}
+	}
+	return irTerm{}, false
+}
+
 type irLoopCtx struct {
 	cont irK
 	brk  irK
+	// labelled loops (engineer auth, C06): label of this loop ("" = none); for a loop nested directly in a
+	// labelled loop L whose body contains `continue L`: lblCont = L and lblVal = the tuple of this loop's
+	// modified variables (`continue L` is then `.inl (.inr lblVal)`, a return `.inl (.inl r)`).
+	label   string
+	lblCont string
+	lblVal  string
+}
+
+// irHasLabelledContinue: b contains `continue <label>` (anywhere, nested statements included).
+func irHasLabelledContinue(b []ast.Stmt, label string) bool {
+	found := false
+	for _, s := range b {
+		ast.Inspect(s, func(n ast.Node) bool {
+			if bs, ok := n.(*ast.BranchStmt); ok && bs.Tok == token.CONTINUE && bs.Label != nil && bs.Label.Name == label {
+				found = true
+			}
+			return !found
+		})
+	}
+	return found
 }
 
 type irT struct {
@@ -178,6 +364,15 @@ type irT struct {
 	guards  []string // pending guards of partial calls in the statement being translated
 	loop    *irLoopCtx
 	inLoop  bool
+	pre     []irLet   // pending lets of effectful calls (irEffCall) in the statement being translated
+	ranges  []irRange // enclosing `for i[, x] := range xs` loops with an index variable (innermost last)
+	nshadow int
+	deferB   []ast.Stmt // irSpec.DeferInline (resil): body of the inlined deferred closure
+	deferred []ast.Stmt // … while it is active (after the marker statement)
+	plabel  string // label of the loop statement being translated (set by a LabeledStmt, consumed by loopFn)
+	retK    func(vals []irTerm, ind string) (string, error) // inside an inlined closure body: what `return` does
+	nclos   int
+	closSeen map[string]*ast.FuncLit // closures defined inside statements analysed by `assigned` (engineer mux)
 }
 
 var irKeywords = map[string]bool{"at": true, "from": true, "end": true, "then": true, "open": true, "show": true,
@@ -186,7 +381,8 @@ var irKeywords = map[string]bool{"at": true, "from": true, "end": true, "then": 
 	"namespace": true, "section": true, "variable": true, "universe": true, "import": true, "export": true,
 	"private": true, "protected": true, "mutual": true, "inductive": true, "class": true, "deriving": true,
 	"return": true, "for": true, "unless": true, "try": true, "catch": true, "finally": true, "using": true,
-	"exact": true, "Type": true, "Prop": true, "Sort": true, "forall": true, "exists": true, "then_": false}
+	"exact": true, "Type": true, "Prop": true, "Sort": true, "forall": true, "exists": true, "then_": false,
+	"prefix": true, "infix": true, "infixl": true, "infixr": true, "postfix": true, "notation": true, "macro": true, "syntax": true}
 
 func irIdent(goName string) string {
 	if irKeywords[goName] || strings.HasSuffix(goName, "__") {
@@ -334,6 +530,11 @@ func (t *irT) expr(e ast.Expr, env *irEnv) (irTerm, error) {
 			return x, err
 		}
 	}
+	if t.spec.Ext.InlineClosures || t.spec.Ext.Composite != nil { // engineer mux: see the end of this file
+		if x, ok, err := t.muxExpr(e, env); ok || err != nil {
+			return x, err
+		}
+	}
 	switch x := e.(type) {
 	case *ast.BasicLit:
 		switch x.Kind {
@@ -348,7 +549,26 @@ func (t *irT) expr(e ast.Expr, env *irEnv) (irTerm, error) {
 			if err != nil {
 				return irTerm{}, err
 			}
+			if t.spec.StrTy != "" { // configured string type (e.g. byte strings)
+				lit := Str(s)
+				if t.spec.StrLitFmt != "" {
+					lit = fmt.Sprintf(t.spec.StrLitFmt, Str(s))
+				}
+				return irTerm{lit, t.spec.StrTy}, nil
+			}
 			return irTerm{Str(s), "String"}, nil
+		case token.CHAR:
+			if t.spec.CharTy != "" {
+				c, _, _, err := strconv.UnquoteChar(strings.Trim(x.Value, "'"), '\'')
+				if err != nil {
+					return irTerm{}, err
+				}
+				return irTerm{fmt.Sprintf(t.spec.CharFmt, int(c)), t.spec.CharTy}, nil
+			}
+		case token.FLOAT:
+			if m, e, ok := irDecimal(x.Value); ok && len(t.spec.NumOps) > 0 {
+				return irTerm{m + "|" + e, "flit"}, nil // only usable next to a NumOps type (see numBinary)
+			}
 		}
 	case *ast.Ident:
 		if v, ok := env.vars[x.Name]; ok {
@@ -408,6 +628,9 @@ func (t *irT) expr(e ast.Expr, env *irEnv) (irTerm, error) {
 	case *ast.CallExpr:
 		return t.call(x, env)
 	case *ast.IndexExpr:
+		if el, ok := t.rangeElem(x, env); ok {
+			return el, nil
+		}
 		c, err := t.expr(x.X, env)
 		if err != nil {
 			return irTerm{}, err
@@ -422,6 +645,32 @@ func (t *irT) expr(e ast.Expr, env *irEnv) (irTerm, error) {
 		}
 		return irTerm{irFmt(f.Fmt, []string{c.S, i.S}), f.Ty}, nil
 	case *ast.SliceExpr:
+		if x.Max == nil && x.High != nil && (t.spec.SliceRange != nil || t.spec.SliceTo != nil) {
+			c, err := t.expr(x.X, env)
+			if err != nil {
+				return irTerm{}, err
+			}
+			hi, err := t.expr(x.High, env)
+			if err != nil {
+				return irTerm{}, err
+			}
+			if x.Low == nil {
+				f, ok := t.spec.SliceTo[c.Ty]
+				if !ok {
+					return irTerm{}, fmt.Errorf("slicing [:hi] of %s not configured (%s)", c.Ty, t.r.Src(x))
+				}
+				return irTerm{irFmt(f.Fmt, []string{c.S, hi.S}), f.Ty}, nil
+			}
+			lo, err := t.expr(x.Low, env)
+			if err != nil {
+				return irTerm{}, err
+			}
+			f, ok := t.spec.SliceRange[c.Ty]
+			if !ok {
+				return irTerm{}, fmt.Errorf("slicing [lo:hi] of %s not configured (%s)", c.Ty, t.r.Src(x))
+			}
+			return irTerm{irFmt(f.Fmt, []string{c.S, lo.S, hi.S}), f.Ty}, nil
+		}
 		if x.High != nil || x.Max != nil || x.Low == nil {
 			break
 		}
@@ -444,9 +693,9 @@ func (t *irT) expr(e ast.Expr, env *irEnv) (irTerm, error) {
 
 // tryExpr translates speculatively: guards of partial calls met on the way are discarded.
 func (t *irT) tryExpr(e ast.Expr, env *irEnv) (irTerm, error) {
-	ng := len(t.guards)
+	ng, np := len(t.guards), len(t.pre)
 	x, err := t.expr(e, env)
-	t.guards = t.guards[:ng]
+	t.guards, t.pre = t.guards[:ng], t.pre[:np]
 	return x, err
 }
 
@@ -464,10 +713,18 @@ func (t *irT) binary(x *ast.BinaryExpr, env *irEnv) (irTerm, error) {
 	bad := func() (irTerm, error) {
 		return irTerm{}, fmt.Errorf("unsupported operands %s(%s) %s %s(%s) in %s", a.S, a.Ty, x.Op, b.S, b.Ty, t.r.Src(x))
 	}
+	if r, ok := t.numBinary(x.Op, a, b); ok {
+		return r, nil
+	} else if a.Ty == "flit" || b.Ty == "flit" {
+		return bad()
+	}
 	switch x.Op {
 	case token.ADD, token.SUB, token.MUL, token.QUO, token.REM:
 		if x.Op == token.ADD && a.Ty == "String" && b.Ty == "String" {
 			return irTerm{fmt.Sprintf("(%s ++ %s)", a.S, b.S), "String"}, nil
+		}
+		if x.Op == token.ADD && t.spec.StrTy != "" && a.Ty == t.spec.StrTy && b.Ty == t.spec.StrTy {
+			return irTerm{fmt.Sprintf("(%s ++ %s)", a.S, b.S), t.spec.StrTy}, nil
 		}
 		ty, ok := irJoinNum(a.Ty, b.Ty)
 		if !ok || !irIsNum(ty) {
@@ -535,11 +792,145 @@ func (t *irT) binary(x *ast.BinaryExpr, env *irEnv) (irTerm, error) {
 	return bad()
 }
 
+// irDecimal splits a plain decimal floating-point literal: "1.5" → ("15", "1").
+func irDecimal(lit string) (mant, exp string, ok bool) {
+	i := strings.IndexByte(lit, '.')
+	if i < 0 || strings.ContainsAny(lit, "eEpPxX_") {
+		return "", "", false
+	}
+	frac := lit[i+1:]
+	m := strings.TrimLeft(lit[:i]+frac, "0")
+	if m == "" {
+		m = "0"
+	}
+	for _, c := range m {
+		if c < '0' || c > '9' {
+			return "", "", false
+		}
+	}
+	return m, strconv.Itoa(len(frac)), true
+}
+
+// numBinary: arithmetic / ordering on a configured numeric type (irSpec.NumOps); untyped literals on
+// the other side are converted.
+func (t *irT) numBinary(op token.Token, a, b irTerm) (irTerm, bool) {
+	ty := ""
+	if _, ok := t.spec.NumOps[a.Ty]; ok {
+		ty = a.Ty
+	} else if _, ok := t.spec.NumOps[b.Ty]; ok {
+		ty = b.Ty
+	} else {
+		return irTerm{}, false
+	}
+	ops := t.spec.NumOps[ty]
+	coerce := func(x irTerm) (string, bool) {
+		switch x.Ty {
+		case ty:
+			return x.S, true
+		case "lit":
+			if ops.OfInt == "" {
+				return "", false
+			}
+			return fmt.Sprintf(ops.OfInt, x.S), true
+		case "flit":
+			if ops.OfFloat == "" {
+				return "", false
+			}
+			me := strings.SplitN(x.S, "|", 2)
+			return irFmt(ops.OfFloat, me), true
+		}
+		return "", false
+	}
+	as, ok1 := coerce(a)
+	bs, ok2 := coerce(b)
+	if !ok1 || !ok2 {
+		return irTerm{}, false
+	}
+	f, rty := "", ty
+	switch op {
+	case token.ADD:
+		f = ops.Add
+	case token.SUB:
+		f = ops.Sub
+	case token.MUL:
+		f = ops.Mul
+	case token.QUO:
+		f = ops.Quo
+	case token.LSS:
+		f, rty = ops.Lt, "Bool"
+	case token.LEQ:
+		f, rty = ops.Le, "Bool"
+	case token.GTR:
+		f, rty, as, bs = ops.Lt, "Bool", bs, as
+	case token.GEQ:
+		f, rty, as, bs = ops.Le, "Bool", bs, as
+	}
+	if f == "" {
+		return irTerm{}, false
+	}
+	return irTerm{fmt.Sprintf(f, as, bs), rty}, true
+}
+
+// effCall: configuration of an effectful call (irSpec.EffFuncs / EffMethods), with the receiver term
+// for methods.
+func (t *irT) effCall(x *ast.CallExpr, env *irEnv) (irEffCall, *irTerm, bool) {
+	if len(t.spec.EffFuncs) == 0 && len(t.spec.EffMethods) == 0 {
+		return irEffCall{}, nil, false
+	}
+	switch f := x.Fun.(type) {
+	case *ast.Ident:
+		if v, ok := env.vars[f.Name]; ok {
+			c, ok := t.spec.EffFuncs["("+v.Ty+")"]
+			return c, &irTerm{v.Lean, v.Ty}, ok // the callee's value is %[1]s, like a receiver
+		}
+		c, ok := t.spec.EffFuncs[f.Name]
+		return c, nil, ok
+	case *ast.SelectorExpr:
+		if irRootInEnv(f.X, env) {
+			if rx, err := t.tryExpr(f.X, env); err == nil {
+				if c, ok := t.spec.EffMethods[rx.Ty+"."+f.Sel.Name]; ok {
+					return c, &rx, true
+				}
+			}
+			return irEffCall{}, nil, false
+		}
+		c, ok := t.spec.EffFuncs[t.r.Src(f)]
+		return c, nil, ok
+	}
+	return irEffCall{}, nil, false
+}
+
 func (t *irT) call(x *ast.CallExpr, env *irEnv) (irTerm, error) {
 	if x.Ellipsis.IsValid() {
 		return irTerm{}, fmt.Errorf("unsupported variadic call %s", t.r.Src(x))
 	}
 	fun := t.r.Src(x.Fun)
+	if c, recv, ok := t.effCall(x, env); ok {
+		var ss []string
+		if recv != nil {
+			ss = append(ss, recv.S)
+		}
+		if c.NArgs >= 0 {
+			if len(x.Args) != c.NArgs {
+				return irTerm{}, fmt.Errorf("%s: %d arguments, expected %d", fun, len(x.Args), c.NArgs)
+			}
+			_, as, err := t.exprs(x.Args, env)
+			if err != nil {
+				return irTerm{}, err
+			}
+			ss = append(ss, as...)
+		}
+		t.ntmp++
+		tmp := fmt.Sprintf("e%d__", t.ntmp)
+		sub := func(f string) string { return strings.ReplaceAll(irFmt(f, ss), "§tmp", tmp) }
+		for _, l := range c.Pre {
+			t.pre = append(t.pre, irLet{sub(l.Var), l.Ty, sub(l.Fmt)})
+		}
+		if c.Guard != "" {
+			t.guards = append(t.guards, sub(c.Guard))
+		}
+		return irTerm{sub(c.Fmt), c.Ty}, nil
+	}
 	// conversions
 	_, isArr := x.Fun.(*ast.ArrayType)
 	if len(x.Args) == 1 && (isArr || irNumConv[fun] || t.hasConv(fun)) {
@@ -659,6 +1050,9 @@ func (t *irT) terminates(b []ast.Stmt) bool {
 			return x.Else != nil && t.terminates(x.Body.List) && t.terminates(irElse(x))
 		case *ast.BlockStmt:
 			return t.terminates(x.List)
+		case *ast.SelectStmt:
+			d, err := t.desugarSelect(x, nil)
+			return err == nil && t.terminates([]ast.Stmt{d})
 		case *ast.SwitchStmt:
 			hasDefault := false
 			for _, c := range x.Body.List {
@@ -687,7 +1081,11 @@ func (t *irT) exits(b []ast.Stmt, inNested bool) bool {
 		case *ast.ReturnStmt:
 			return true
 		case *ast.BranchStmt:
-			if !inNested {
+			if !inNested || x.Label != nil { // a labelled branch leaves the nested loop as well
+				return true
+			}
+		case *ast.LabeledStmt:
+			if t.exits([]ast.Stmt{x.Stmt}, inNested) {
 				return true
 			}
 		case *ast.IfStmt:
@@ -696,6 +1094,10 @@ func (t *irT) exits(b []ast.Stmt, inNested bool) bool {
 			}
 		case *ast.BlockStmt:
 			if t.exits(x.List, inNested) {
+				return true
+			}
+		case *ast.SelectStmt:
+			if d, err := t.desugarSelect(x, nil); err == nil && t.exits([]ast.Stmt{d}, inNested) {
 				return true
 			}
 		case *ast.SwitchStmt:
@@ -782,12 +1184,80 @@ func (t *irT) assigned(b []ast.Stmt, outer *irEnv, set map[string]bool) {
 			walkStmt(s)
 		}
 	}
+	// state variables updated by effectful calls (irEffCall.Pre) inside an expression
+	effects := func(es ...ast.Expr) {
+		if len(t.spec.EffFuncs) == 0 && len(t.spec.EffMethods) == 0 {
+			return
+		}
+		for _, e := range es {
+			if e == nil {
+				continue
+			}
+			ast.Inspect(e, func(n ast.Node) bool {
+				ce, ok := n.(*ast.CallExpr)
+				if !ok {
+					return true
+				}
+				if c, recv, ok := t.effCall(ce, outer); ok {
+					var ss []string
+					if recv != nil {
+						ss = append(ss, recv.S)
+					}
+					for _, a := range ce.Args {
+						if x, err := t.tryExpr(a, outer); err == nil {
+							ss = append(ss, x.S)
+						} else {
+							ss = append(ss, "_")
+						}
+					}
+					for _, l := range c.Pre {
+						if k, ok := outer.keyOfLean(irFmt(l.Var, ss)); ok {
+							add(k)
+						}
+					}
+				}
+				return true
+			})
+		}
+	}
+	shadowed := map[string]int{} // names redeclared by an enclosing if-init (irSpec.AllowShadow)
 	walkStmt = func(s ast.Stmt) {
 		if s == nil || t.ignorable(s) {
 			return
 		}
+		if t.spec.Ext.InlineClosures { // engineer mux: a call of a local closure assigns what its body assigns
+			t.closureEffects(s, outer, walk)
+		}
+		if t.spec.Ext.HookAssigns && t.spec.StmtHook != nil { // engineer mqtt: the targets of a StmtHook statement count as assigned
+			ng, np := len(t.guards), len(t.pre)
+			lets, ok, err := t.spec.StmtHook(t, s, outer)
+			t.guards, t.pre = t.guards[:ng], t.pre[:np]
+			if ok && err == nil {
+				for _, l := range lets {
+					if k, ok := outer.keyOfLean(l.Var); ok {
+						add(k)
+					}
+				}
+				return
+			}
+		}
 		switch x := s.(type) {
+		case *ast.ReturnStmt:
+			effects(x.Results...)
+		case *ast.DeclStmt:
+			if gd, ok := x.Decl.(*ast.GenDecl); ok {
+				for _, sp := range gd.Specs {
+					if vs, ok := sp.(*ast.ValueSpec); ok {
+						effects(vs.Values...)
+					}
+				}
+			}
+		case *ast.SelectStmt:
+			if d, err := t.desugarSelect(x, outer); err == nil {
+				walkStmt(d)
+			}
 		case *ast.AssignStmt:
+			effects(x.Rhs...)
 			// b := &xs[i] declared inside b: later writes through b are writes to xs
 			if x.Tok == token.DEFINE && len(x.Lhs) == 1 && len(x.Rhs) == 1 {
 				if ue, ok := x.Rhs[0].(*ast.UnaryExpr); ok && ue.Op == token.AND {
@@ -803,7 +1273,7 @@ func (t *irT) assigned(b []ast.Stmt, outer *irEnv, set map[string]bool) {
 			for _, l := range x.Lhs {
 				if k, ok := aliasTarget(l); ok {
 					add(k)
-				} else if k, err := t.lhsKey(l, outer); err == nil {
+				} else if k, err := t.lhsKey(l, outer); err == nil && shadowed[k] == 0 {
 					add(k)
 				}
 			}
@@ -825,14 +1295,59 @@ func (t *irT) assigned(b []ast.Stmt, outer *irEnv, set map[string]bool) {
 							add(k)
 						}
 					}
+				} else if se, ok := ce.Fun.(*ast.SelectorExpr); ok {
+					// the call does not translate in the outer environment (it mentions variables declared
+					// inside the block): conservatively assume every configured statement method of that
+					// name, and count its literally named targets as assigned (engineer pipe)
+					for key, m := range t.spec.StmtMethods {
+						if strings.HasSuffix(key, "."+se.Sel.Name) {
+							for _, l := range m.Lets {
+								if !strings.Contains(l.Var, "%") {
+									if k, ok := outer.keyOfLean(l.Var); ok {
+										add(k)
+									}
+								} else if rx, err := t.tryExpr(se.X, outer); err == nil && key == rx.Ty+"."+se.Sel.Name {
+									// target named after the receiver (`out.Del(sf)` with Var "%[1]s"): the receiver
+									// translates although the arguments do not (engineer proxy)
+									if k, ok := outer.keyOfLean(irFmt(l.Var, []string{rx.S, "_", "_", "_", "_"})); ok {
+										add(k)
+									}
+								} else if n := irArgVar(l.Var); n >= 2 && n-2 < len(ce.Args) {
+									// target named after an argument (`nextNode.addClients(ans)` with Var "%[2]s"): the
+									// argument is a plain tracked variable although the receiver is bound deeper (engineer mqtt)
+									if id, ok := irUnparen(ce.Args[n-2]).(*ast.Ident); ok {
+										if v, ok := outer.vars[id.Name]; ok && !v.Param {
+											add(id.Name)
+										}
+									}
+								}
+							}
+						}
+					}
 				}
 			}
 		case *ast.IfStmt:
-			walkStmt(x.Init)
+			var sh []string
+			if as, ok := x.Init.(*ast.AssignStmt); ok && as.Tok == token.DEFINE && t.spec.AllowShadow {
+				effects(as.Rhs...)
+				for _, l := range as.Lhs {
+					if id, ok := l.(*ast.Ident); ok && id.Name != "_" {
+						sh = append(sh, id.Name)
+						shadowed[id.Name]++
+					}
+				}
+			} else {
+				walkStmt(x.Init)
+			}
 			walk(x.Body.List)
 			walk(irElse(x))
+			for _, n := range sh {
+				shadowed[n]--
+			}
 		case *ast.BlockStmt:
 			walk(x.List)
+		case *ast.LabeledStmt:
+			walkStmt(x.Stmt)
 		case *ast.SwitchStmt:
 			walkStmt(x.Init)
 			for _, c := range x.Body.List {
@@ -913,24 +1428,41 @@ func (t *irT) bind(key string, define bool, rhs irTerm, env *irEnv, ind string) 
 		if ty == "lit" {
 			ty = "Int"
 		}
-		if ty == "nil" {
-			return "", nil, fmt.Errorf("cannot type %s := nil", key)
+		if ty == "nil" || ty == "flit" {
+			return "", nil, fmt.Errorf("cannot type %s := %s", key, ty)
 		}
 		if ok && !v.Param && v.Ty != ty {
 			return "", nil, fmt.Errorf("redeclaration of %s changes type %s → %s", key, v.Ty, ty)
 		}
 		v = irVar{Lean: irIdent(key), Ty: ty, Depth: env.depth}
 		env = env.with(key, v)
+	case define && t.spec.AllowShadow:
+		ty := rhs.Ty
+		if ty == "lit" {
+			ty = "Int"
+		}
+		if ty == "nil" || ty == "flit" {
+			return "", nil, fmt.Errorf("cannot type %s := %s", key, ty)
+		}
+		t.nshadow++
+		v = irVar{Lean: fmt.Sprintf("%s_%d", irIdent(key), t.nshadow), Ty: ty, Depth: env.depth}
+		env = env.with(key, v)
 	case define:
 		return "", nil, fmt.Errorf("declaration of %s shadows an outer variable (not supported)", key)
 	case !ok:
 		return "", nil, fmt.Errorf("assignment to unknown variable %s", key)
 	default:
+		if rhs.Ty == "nil" && strings.HasPrefix(t.leanTy(v.Ty), "Option ") { // x = nil for an Option-typed variable
+			rhs = irTerm{"none", v.Ty}
+		}
 		if _, okj := irJoinNum(v.Ty, rhs.Ty); !(okj && irIsNum(v.Ty) && irIsNum(rhs.Ty)) && v.Ty != rhs.Ty {
 			return "", nil, fmt.Errorf("assignment of %s to %s : %s", rhs.Ty, key, v.Ty)
 		}
 		if v.Param { // assignment to a Go parameter: it becomes a local that shadows the binder
 			nv := irVar{Lean: irIdent(key), Ty: v.Ty, Depth: v.Depth}
+			if t.spec.Ext.ParamKeepsBinderName {
+				nv.Lean = v.Lean // the local shadows the binder under the binder's own name
+			}
 			out := ""
 			if nv.Lean != v.Lean {
 				out = fmt.Sprintf("%slet %s : %s := %s\n", ind, nv.Lean, t.leanTy(nv.Ty), v.Lean)
@@ -978,6 +1510,12 @@ func (t *irT) stmt(s ast.Stmt, env *irEnv, ind string, next irNext) (string, err
 	if len(t.guards) != 0 {
 		return "", fmt.Errorf("partial call in an unsupported position before %s", t.r.Src(s))
 	}
+	if t.spec.Ext.InlineClosures { // engineer mux: definition / calls of a local closure
+		if out, ok, err := t.closureStmt(s, env, ind, next); ok || err != nil {
+			return out, err
+		}
+	}
+	genv := env // environment at the point where a pending guard is tested (for the panic branch)
 	guarded := func(rest func(ind string) (string, error), ind string) (string, error) {
 		g := t.guards
 		t.guards = nil
@@ -991,18 +1529,128 @@ func (t *irT) stmt(s ast.Stmt, env *irEnv, ind string, next irNext) (string, err
 		if err != nil {
 			return "", err
 		}
-		return fmt.Sprintf("%sif %s then\n%s%selse\n%s  %s\n", ind, strings.Join(g, " && "), r, ind, ind, t.wrapRet(t.spec.Panic)), nil
+		pb, err := t.panicBranch(genv, ind+"  ")
+		if err != nil {
+			return "", err
+		}
+		return fmt.Sprintf("%sif %s then\n%s%selse\n%s", ind, strings.Join(g, " && "), r, ind, pb), nil
+	}
+	if len(t.pre) != 0 {
+		return "", fmt.Errorf("effectful call in an unsupported position before %s", t.r.Src(s))
 	}
 	switch s.(type) {
 	case *ast.AssignStmt, *ast.IncDecStmt, *ast.DeclStmt, *ast.ExprStmt:
 		inner := next
 		next = func(env2 *irEnv, ind string) (string, error) {
+			genv = env2
 			return guarded(func(ind string) (string, error) { return inner(env2, ind) }, ind)
 		}
+	}
+	if len(t.spec.EffFuncs) != 0 || len(t.spec.EffMethods) != 0 {
+		switch s.(type) {
+		case *ast.AssignStmt, *ast.DeclStmt, *ast.ExprStmt, *ast.ReturnStmt:
+			// lets of effectful calls evaluated by this statement go in front of its own bindings
+			var captured []irLet
+			inner := next
+			next = func(env2 *irEnv, ind string) (string, error) {
+				captured, t.pre = append(captured, t.pre...), nil
+				return inner(env2, ind)
+			}
+			res, err := t.stmtCore(s, env, ind, next)
+			if err != nil {
+				return "", err
+			}
+			captured, t.pre = append(captured, t.pre...), nil // a return does not call next
+			out := ""
+			for _, l := range captured {
+				if k, ok := env.keyOfLean(l.Var); ok {
+					ls, _, err := t.bind(k, false, irTerm{l.Fmt, l.Ty}, env, ind)
+					if err != nil {
+						return "", err
+					}
+					out += ls
+				} else {
+					out += fmt.Sprintf("%slet %s : %s := %s\n", ind, l.Var, t.leanTy(l.Ty), l.Fmt)
+				}
+			}
+			return out + res, nil
+		}
+	}
+	return t.stmtCore(s, env, ind, next)
+}
+
+// panicBranch: what a panicking partial call continues with — the configured Panic result, preceded
+// (irSpec.DeferInline) by the body of the deferred closure that is active at this point.
+func (t *irT) panicBranch(env *irEnv, ind string) (string, error) {
+	fin := func(ind string) (string, error) { return ind + t.wrapRet(t.spec.Panic) + "\n", nil }
+	if len(t.deferred) == 0 {
+		return fin(ind)
+	}
+	d := t.deferred
+	t.deferred = nil // a panic inside the deferred body itself is not modelled
+	out, err := t.stmts(d, env.push(), ind, fin)
+	t.deferred = d
+	return out, err
+}
+
+func (t *irT) stmtCore(s ast.Stmt, env *irEnv, ind string, next irNext) (string, error) {
+	if es, ok := s.(*ast.ExprStmt); ok && t.deferB != nil {
+		if ce, ok := es.X.(*ast.CallExpr); ok {
+			if id, ok := ce.Fun.(*ast.Ident); ok && id.Name == "§defer" {
+				// irSpec.DeferInline: from here on the deferred closure is active
+				old := t.deferred
+				t.deferred = t.deferB
+				out, err := next(env, ind)
+				t.deferred = old
+				return out, err
+			}
+		}
+	}
+	guarded := func(rest func(ind string) (string, error), ind string) (string, error) {
+		g := t.guards
+		t.guards = nil
+		if len(g) == 0 {
+			return rest(ind)
+		}
+		if t.spec.Panic == "" {
+			return "", fmt.Errorf("partial call but panic not configured: %s", t.r.Src(s))
+		}
+		r, err := rest(ind + "  ")
+		if err != nil {
+			return "", err
+		}
+		pb, err := t.panicBranch(env, ind+"  ")
+		if err != nil {
+			return "", err
+		}
+		return fmt.Sprintf("%sif %s then\n%s%selse\n%s", ind, strings.Join(g, " && "), r, ind, pb), nil
 	}
 	if t.ignorable(s) {
 		t.skipped = append(t.skipped, t.r.Src(s))
 		return next(env, ind)
+	}
+	if t.spec.StmtHook != nil {
+		lets, ok, err := t.spec.StmtHook(t, s, env)
+		if err != nil {
+			return "", err
+		}
+		if ok {
+			out := ""
+			for _, l := range lets {
+				rhs := irTerm{l.Fmt, l.Ty}
+				if k, ok := env.keyOfLean(l.Var); ok {
+					ls, env2, err := t.bind(k, false, rhs, env, ind)
+					if err != nil {
+						return "", err
+					}
+					out, env = out+ls, env2
+				} else {
+					out += fmt.Sprintf("%slet %s : %s := %s\n", ind, l.Var, t.leanTy(l.Ty), rhs.S)
+				}
+			}
+			r, err := next(env, ind)
+			return out + r, err
+		}
 	}
 	switch x := s.(type) {
 	case *ast.EmptyStmt:
@@ -1011,8 +1659,15 @@ func (t *irT) stmt(s ast.Stmt, env *irEnv, ind string, next irNext) (string, err
 		return t.block(x.List, env, ind, func(ind string) (string, error) { return next(env, ind) })
 	case *ast.DeclStmt:
 		gd, ok := x.Decl.(*ast.GenDecl)
-		if !ok || gd.Tok != token.VAR {
+		if !ok || (gd.Tok != token.VAR && gd.Tok != token.CONST) {
 			break
+		}
+		if gd.Tok == token.CONST { // local constants: every name needs its own value (no iota / repetition)
+			for _, sp := range gd.Specs {
+				if vs := sp.(*ast.ValueSpec); len(vs.Values) != len(vs.Names) {
+					return "", fmt.Errorf("unsupported constant declaration %s", t.r.Src(s))
+				}
+			}
 		}
 		out := ""
 		for _, sp := range gd.Specs {
@@ -1033,6 +1688,9 @@ func (t *irT) stmt(s ast.Stmt, env *irEnv, ind string, next irNext) (string, err
 					}
 					if val.S == "" {
 						z, ok := irZero(ty)
+						if zz, ok2 := t.spec.Zero[ty]; ok2 {
+							z, ok = zz, true
+						}
 						if !ok {
 							return "", fmt.Errorf("no zero value for %s (%s)", ty, t.r.Src(s))
 						}
@@ -1069,12 +1727,33 @@ func (t *irT) stmt(s ast.Stmt, env *irEnv, ind string, next irNext) (string, err
 		if err != nil {
 			return "", err
 		}
+		if t.retK != nil { // inside an inlined closure body (engineer mux): bind the result, continue after the call
+			k := t.retK
+			return guarded(func(ind string) (string, error) { return k(vals, ind) }, ind)
+		}
 		r, err := t.spec.Ret(vals)
 		if err != nil {
 			return "", fmt.Errorf("%v (%s)", err, t.r.Src(s))
 		}
 		return guarded(func(ind string) (string, error) { return ind + t.wrapRet(r) + "\n", nil }, ind)
+	case *ast.LabeledStmt:
+		// a labelled range / for statement: the label is handed to loopFn (labelled `continue` only)
+		switch x.Stmt.(type) {
+		case *ast.RangeStmt, *ast.ForStmt:
+			t.plabel = x.Label.Name
+			out, err := t.stmt(x.Stmt, env, ind, next)
+			t.plabel = ""
+			return out, err
+		}
 	case *ast.BranchStmt:
+		if x.Label != nil && t.loop != nil && x.Tok == token.CONTINUE {
+			switch x.Label.Name {
+			case t.loop.label: // the innermost loop's own label: a plain continue
+				return t.loop.cont(ind)
+			case t.loop.lblCont: // continue of the directly enclosing labelled loop from its inner loop
+				return ind + ".inl (.inr " + t.loop.lblVal + ")\n", nil
+			}
+		}
 		if x.Label != nil || t.loop == nil {
 			break
 		}
@@ -1113,6 +1792,9 @@ func (t *irT) stmt(s ast.Stmt, env *irEnv, ind string, next irNext) (string, err
 				out += fmt.Sprintf("%slet %s : %s := %s\n", ind, name, t.leanTy(l.Ty), rhs.S)
 			}
 		}
+		if sc.Guard != "" { // the call panics when the guard is false (checked after its bindings)
+			t.guards = append(t.guards, irFmt(sc.Guard, args))
+		}
 		r, err := next(env, ind)
 		return out + r, err
 	case *ast.IfStmt:
@@ -1127,11 +1809,86 @@ func (t *irT) stmt(s ast.Stmt, env *irEnv, ind string, next irNext) (string, err
 		return t.rangeStmt(x, env, ind, next)
 	case *ast.ForStmt:
 		return t.forStmt(x, env, ind, next)
+	case *ast.SelectStmt:
+		d, err := t.desugarSelect(x, env)
+		if err != nil {
+			return "", err
+		}
+		return t.stmt(d, env, ind, next)
 	}
 	return "", fmt.Errorf("unsupported statement %s", t.r.Src(s))
 }
 
+// desugarSelect rewrites `select { case <-c1(args…): b1 … }` into an if-chain over the environment's
+// choice oracle `§select(i)`, in the order of irSpec.SelectComm (so the source order of the clauses
+// does not matter); each branch starts with the clause's synthetic statement. Every clause must be a
+// receive from a configured call, every configured clause must be present once, no default clause.
+// env == nil: receivers are keyed by the printed callee only (used by the flow analyses, which do not
+// depend on the keys' types … they re-try with the statement's environment where one is at hand).
+func (t *irT) desugarSelect(x *ast.SelectStmt, env *irEnv) (ast.Stmt, error) {
+	if len(t.spec.SelectComm) == 0 {
+		return nil, fmt.Errorf("select not configured")
+	}
+	bodies := make([][]ast.Stmt, len(t.spec.SelectComm))
+	seen := make([]bool, len(t.spec.SelectComm))
+	for _, c := range x.Body.List {
+		cc := c.(*ast.CommClause)
+		var call *ast.CallExpr
+		if es, ok := cc.Comm.(*ast.ExprStmt); ok {
+			if ue, ok := es.X.(*ast.UnaryExpr); ok && ue.Op == token.ARROW {
+				call, _ = ue.X.(*ast.CallExpr)
+				if se, ok := ue.X.(*ast.SelectorExpr); ok && call == nil {
+					// receive from a channel-valued field (`<-timer.C`): keyed like a method, the holder
+					// of the field is passed on as the synthetic statement's only argument
+					call = &ast.CallExpr{Fun: se, Args: []ast.Expr{se.X}}
+				}
+			}
+		}
+		if call == nil {
+			return nil, fmt.Errorf("unsupported select clause %s", t.r.Src(cc))
+		}
+		keys := []string{"<-" + t.r.Src(call.Fun)}
+		if se, ok := call.Fun.(*ast.SelectorExpr); ok {
+			if env != nil {
+				if rx, err := t.tryExpr(se.X, env); err == nil {
+					keys = []string{"<-" + rx.Ty + "." + se.Sel.Name}
+				}
+			} else {
+				keys = append(keys, "<-*."+se.Sel.Name)
+			}
+		}
+		idx := -1
+		for i, sc := range t.spec.SelectComm {
+			for _, k := range keys {
+				if sc.Key == k || (strings.HasPrefix(k, "<-*.") && strings.HasSuffix(sc.Key, k[3:]) && strings.Contains(sc.Key, ".")) {
+					idx = i
+				}
+			}
+		}
+		if idx < 0 || seen[idx] {
+			return nil, fmt.Errorf("select clause %s not configured (or repeated)", t.r.Src(cc.Comm))
+		}
+		seen[idx] = true
+		first := &ast.ExprStmt{X: &ast.CallExpr{Fun: ast.NewIdent(t.spec.SelectComm[idx].Stmt), Args: call.Args}}
+		bodies[idx] = append([]ast.Stmt{first}, cc.Body...)
+	}
+	for i, ok := range seen {
+		if !ok {
+			return nil, fmt.Errorf("select lacks the clause %s", t.spec.SelectComm[i].Key)
+		}
+	}
+	var cur ast.Stmt = &ast.BlockStmt{List: bodies[len(bodies)-1]}
+	for i := len(bodies) - 2; i >= 0; i-- {
+		cond := &ast.CallExpr{Fun: ast.NewIdent("§select"), Args: []ast.Expr{&ast.BasicLit{Kind: token.INT, Value: strconv.Itoa(i)}}}
+		cur = &ast.IfStmt{Cond: cond, Body: &ast.BlockStmt{List: bodies[i]}, Else: cur}
+	}
+	return cur, nil
+}
+
 func (t *irT) wrapRet(r string) string {
+	if t.inLoop && t.loop != nil && t.loop.lblCont != "" {
+		return ".inl (.inl (" + r + "))" // inner loop of a labelled loop: `.inl (.inr …)` is `continue <label>`
+	}
 	if t.inLoop {
 		return ".inl (" + r + ")"
 	}
@@ -1145,7 +1902,26 @@ func (t *irT) assign(x *ast.AssignStmt, env *irEnv, ind string, next irNext) (st
 		if x.Tok != token.DEFINE && x.Tok != token.ASSIGN {
 			return "", fmt.Errorf("unsupported assignment %s", t.r.Src(x))
 		}
-		rhs, err := t.expr(x.Rhs[0], env)
+		var rhs irTerm
+		var err error
+		if ie, isIdx := irUnparen(x.Rhs[0]).(*ast.IndexExpr); isIdx && len(x.Lhs) == 2 && len(t.spec.Ext.IndexOk) > 0 && !t.hooked(x.Rhs[0], env) {
+			// v, ok := m[k]
+			c, err := t.expr(ie.X, env)
+			if err != nil {
+				return "", err
+			}
+			f, ok := t.spec.Ext.IndexOk[c.Ty]
+			if !ok {
+				return "", fmt.Errorf("comma-ok indexing of %s not configured (%s)", c.Ty, t.r.Src(x))
+			}
+			i, err := t.expr(ie.Index, env)
+			if err != nil {
+				return "", err
+			}
+			rhs = irTerm{irFmt(f.Fmt, []string{c.S, i.S}), f.Ty}
+		} else {
+			rhs, err = t.expr(x.Rhs[0], env)
+		}
 		if err != nil {
 			return "", err
 		}
@@ -1178,15 +1954,31 @@ func (t *irT) assign(x *ast.AssignStmt, env *irEnv, ind string, next irNext) (st
 	}
 	// b := &xs[i]: pointer into a tracked collection
 	if define && len(x.Lhs) == 1 {
-		if ue, ok := x.Rhs[0].(*ast.UnaryExpr); ok && ue.Op == token.AND {
+		if ue, ok := x.Rhs[0].(*ast.UnaryExpr); ok && ue.Op == token.AND && !t.hooked(x.Rhs[0], env) {
 			ie, ok1 := irUnparen(ue.X).(*ast.IndexExpr)
 			id, ok2 := x.Lhs[0].(*ast.Ident)
 			if !ok1 || !ok2 || irInEnv(env, id.Name) {
 				return "", fmt.Errorf("unsupported pointer %s", t.r.Src(x))
 			}
+			if el, ok := t.rangeElem(ie, env); ok {
+				// b := &xs[i] inside `for i := range xs`: b is the current element (read-only: a write
+				// through b has no assignable target and fails the extraction)
+				return next(env.with(id.Name, irVar{Lean: el.S, Ty: el.Ty, Depth: env.depth, Param: true}), ind)
+			}
 			ck, err := t.lhsKey(ie.X, env)
 			if err != nil {
-				return "", err
+				// read-only pointer into a collection that is not a variable (a field of the receiver …):
+				// the element is read once; writes through b have no assignable target and fail
+				el, err2 := t.expr(ie, env)
+				if err2 != nil {
+					return "", err
+				}
+				ls, env2, err2 := t.bind(id.Name, true, el, env, ind)
+				if err2 != nil {
+					return "", err2
+				}
+				r, err2 := next(env2, ind)
+				return ls + r, err2
 			}
 			coll, ok := env.vars[ck]
 			if !ok {
@@ -1240,8 +2032,19 @@ func (t *irT) assign(x *ast.AssignStmt, env *irEnv, ind string, next irNext) (st
 		}
 		// xs[i] = v
 		if ie, ok := irUnparen(l).(*ast.IndexExpr); ok {
-			if define || x.Tok != token.ASSIGN {
+			if define {
 				return "", fmt.Errorf("unsupported assignment %s", t.r.Src(x))
+			}
+			if x.Tok != token.ASSIGN { // m[k] op= v  (m[k]++): the new value is `m[k] op v`
+				op, ok := irAssignOp[x.Tok]
+				if !ok {
+					return "", fmt.Errorf("unsupported assignment operator in %s", t.r.Src(x))
+				}
+				v, err := t.binary(&ast.BinaryExpr{X: l, Op: op, Y: x.Rhs[i]}, env)
+				if err != nil {
+					return "", err
+				}
+				rhs = v
 			}
 			coll, err := t.expr(ie.X, env)
 			if err != nil {
@@ -1322,6 +2125,20 @@ func (t *irT) assign(x *ast.AssignStmt, env *irEnv, ind string, next irNext) (st
 	return out + r, err
 }
 
+// hooked: the spec's Hook translates e itself (e.g. `&T{}` as an opaque value).
+func (t *irT) hooked(e ast.Expr, env *irEnv) bool {
+	if t.spec.Hook == nil {
+		return false
+	}
+	ng, np := len(t.guards), len(t.pre)
+	_, ok, err := t.spec.Hook(t, e, env)
+	t.guards, t.pre = t.guards[:ng], t.pre[:np]
+	return ok && err == nil
+}
+
+var irAssignOp = map[token.Token]token.Token{token.ADD_ASSIGN: token.ADD, token.SUB_ASSIGN: token.SUB,
+	token.MUL_ASSIGN: token.MUL, token.QUO_ASSIGN: token.QUO, token.REM_ASSIGN: token.REM}
+
 func irAliasOf(e ast.Expr, env *irEnv) *irAlias {
 	if id, ok := irUnparen(e).(*ast.Ident); ok {
 		if v, ok := env.vars[id.Name]; ok {
@@ -1329,6 +2146,20 @@ func irAliasOf(e ast.Expr, env *irEnv) *irAlias {
 		}
 	}
 	return nil
+}
+
+// irMentions: some statement of b contains the identifier name (used by loopFn, resil).
+func irMentions(b []ast.Stmt, name string) bool {
+	found := false
+	for _, s := range b {
+		ast.Inspect(s, func(n ast.Node) bool {
+			if id, ok := n.(*ast.Ident); ok && id.Name == name {
+				found = true
+			}
+			return !found
+		})
+	}
+	return found
 }
 
 func irUnparen(e ast.Expr) ast.Expr {
@@ -1376,7 +2207,7 @@ func (t *irT) ifStmt(x *ast.IfStmt, env *irEnv, ind string, next irNext) (string
 	if x.Init != nil {
 		if as, ok := x.Init.(*ast.AssignStmt); ok && as.Tok == token.DEFINE {
 			for _, l := range as.Lhs {
-				if id, ok := l.(*ast.Ident); ok && id.Name != "_" && irInEnv(env, id.Name) {
+				if id, ok := l.(*ast.Ident); ok && id.Name != "_" && irInEnv(env, id.Name) && !t.spec.AllowShadow {
 					return "", fmt.Errorf("if-init redeclares %s (shadowing not supported)", id.Name)
 				}
 			}
@@ -1395,6 +2226,9 @@ func (t *irT) ifCore(x *ast.IfStmt, outer, cenv *irEnv, ind string, next irNext)
 	}
 	if cond.Ty != "Bool" {
 		return "", fmt.Errorf("condition %s has type %s", t.r.Src(x.Cond), cond.Ty)
+	}
+	if len(t.pre) != 0 {
+		return "", fmt.Errorf("effectful call in a condition (not supported): %s", t.r.Src(x.Cond))
 	}
 	thenB, elseB := x.Body.List, irElse(x)
 	after := func(ind string) (string, error) { return next(outer, ind) }
@@ -1525,7 +2359,21 @@ func (t *irT) loopFn(body []ast.Stmt, env *irEnv, ind string, next irNext,
 	name := fmt.Sprintf("%s_loop%d", t.spec.Name, t.nloop)
 	set := map[string]bool{}
 	t.assigned(body, env, set)
+	// second pass with the loop's own variables bound: a statement call whose arguments mention them
+	// (`delete(m, k)` inside `for k, v := range m`) could not be analysed above and its updates of outer
+	// variables were missed (only adds keys of `env`; sortedKeys drops everything else)
+	t.assigned(body, bodyEnv(env.push()), set)
 	keys := t.sortedKeys(set, env)
+	// A Go parameter assigned in the loop whose Go name differs from its binder's name: make it a
+	// local first (otherwise the recursive call and the `.inr` tuple would pass on the binder's value).
+	// With equal names the `let` in the body shadows the binder and the output is as before.
+	paramPre := ""
+	for _, k := range keys {
+		if v := env.vars[k]; v.Param && irIdent(k) != v.Lean && !t.spec.Ext.ParamKeepsBinderName {
+			paramPre += fmt.Sprintf("%slet %s : %s := %s\n", ind, irIdent(k), t.leanTy(v.Ty), v.Lean)
+			env = env.with(k, irVar{Lean: irIdent(k), Ty: v.Ty, Depth: v.Depth})
+		}
+	}
 	val, pat, sty := t.tuple(keys, env)
 
 	locals := env.locals()
@@ -1533,6 +2381,24 @@ func (t *irT) loopFn(body []ast.Stmt, env *irEnv, ind string, next irNext,
 	binders = append(binders, t.spec.Binders)
 	args = append(args, t.spec.BNames...)
 	for _, v := range locals {
+		binders = append(binders, fmt.Sprintf("(%s : %s)", v.Lean, t.leanTy(v.Ty)))
+		args = append(args, v.Lean)
+	}
+	// variables bound by an ENCLOSING loop (its range / index variable) that this loop's body mentions:
+	// without them the nested function would refer to an unbound name (so no output that compiled
+	// before is changed by this)
+	for _, k := range env.order {
+		v := env.vars[k]
+		if !v.Param || v.Alias != nil || v.Lean != irIdent(k) || k == "true" || k == "false" {
+			continue
+		}
+		bound := false
+		for _, b := range t.spec.BNames {
+			bound = bound || b == v.Lean
+		}
+		if bound || !irMentions(body, k) {
+			continue
+		}
 		binders = append(binders, fmt.Sprintf("(%s : %s)", v.Lean, t.leanTy(v.Ty)))
 		args = append(args, v.Lean)
 	}
@@ -1558,11 +2424,34 @@ func (t *irT) loopFn(body []ast.Stmt, env *irEnv, ind string, next irNext,
 	savedLoop, savedIn := t.loop, t.inLoop
 	cont := func(ind string) (string, error) { return ind + callWith(extraArgRec, recArg) + "\n", nil }
 	t.loop = &irLoopCtx{cont: cont, brk: func(ind string) (string, error) { return ind + ".inr " + val + "\n", nil }}
+	// labelled loops: this loop's own label, and `continue L` of the directly enclosing loop L in the body
+	t.loop.label, t.plabel = t.plabel, ""
+	if savedLoop != nil && savedLoop.label != "" && t.loop.label == "" && irHasLabelledContinue(body, savedLoop.label) {
+		t.loop.lblCont, t.loop.lblVal = savedLoop.label, val
+	}
+	lblCont := t.loop.lblCont
 	t.inLoop = true
+	savedRanges := t.ranges
 	b, err := t.stmts(body, bodyEnv(env.push()), "    ", cont)
-	t.loop, t.inLoop = savedLoop, savedIn
+	t.loop, t.inLoop, t.ranges = savedLoop, savedIn, savedRanges
 	if err != nil {
 		return "", err
+	}
+	if lblCont != "" {
+		// result: .inl (.inl r) = return r, .inl (.inr vars) = `continue <label>` of the enclosing loop, .inr vars = loop done
+		def := fmt.Sprintf("def %s %s : %s → Sum (Sum %s %s) %s\n  | %s => .inr %s\n  | %s =>\n%s",
+			name, strings.Join(binders, " "), domTy, rty, lsty, lsty, nilPat, val, consPat, b)
+		t.aux = append(t.aux, def)
+		r, err := next(env, ind+"  ")
+		if err != nil {
+			return "", err
+		}
+		oc, err := savedLoop.cont(ind + "  ")
+		if err != nil {
+			return "", err
+		}
+		return paramPre + fmt.Sprintf("%smatch %s with\n%s| .inl (.inl r__) => %s\n%s| .inl (.inr %s) =>\n%s%s| .inr %s =>\n%s",
+			ind, callWith(extraArgInit, initArg), ind, t.wrapRet("r__"), ind, pat, oc, ind, pat, r), nil
 	}
 	def := fmt.Sprintf("def %s %s : %s → Sum %s %s\n  | %s => .inr %s\n  | %s =>\n%s",
 		name, strings.Join(binders, " "), domTy, rty, lsty, nilPat, val, consPat, b)
@@ -1572,7 +2461,7 @@ func (t *irT) loopFn(body []ast.Stmt, env *irEnv, ind string, next irNext,
 	if err != nil {
 		return "", err
 	}
-	return fmt.Sprintf("%smatch %s with\n%s| .inl r__ => %s\n%s| .inr %s =>\n%s",
+	return paramPre + fmt.Sprintf("%smatch %s with\n%s| .inl r__ => %s\n%s| .inr %s =>\n%s",
 		ind, callWith(extraArgInit, initArg), ind, t.wrapRet("r__"), ind, pat, r), nil
 }
 
@@ -1580,9 +2469,25 @@ func (t *irT) rangeStmt(x *ast.RangeStmt, env *irEnv, ind string, next irNext) (
 	if x.Tok != token.DEFINE && !(x.Key == nil && x.Value == nil) {
 		return "", fmt.Errorf("unsupported range %s", t.r.Src(x.X))
 	}
+	if len(t.spec.RangeKV) > 0 && x.Tok == token.DEFINE && x.Key != nil {
+		if s, handled, err := t.rangeKVStmt(x, env, ind, next); handled {
+			return s, err
+		}
+	}
+	kname := ""
 	if x.Key != nil {
-		if id, ok := x.Key.(*ast.Ident); !ok || id.Name != "_" {
+		id, ok := x.Key.(*ast.Ident)
+		if !ok {
 			return "", fmt.Errorf("range with index variable not supported (%s)", t.r.Src(x.X))
+		}
+		if id.Name != "_" {
+			if t.spec.Ext.RangeKeyTy == "" {
+				return "", fmt.Errorf("range with index variable not supported (%s)", t.r.Src(x.X))
+			}
+			if irInEnv(env, id.Name) {
+				return "", fmt.Errorf("range index %s shadows an outer variable (not supported)", id.Name)
+			}
+			kname = id.Name
 		}
 	}
 	xs, err := t.expr(x.X, env)
@@ -1609,6 +2514,35 @@ func (t *irT) rangeStmt(x *ast.RangeStmt, env *irEnv, ind string, next irNext) (
 	if strings.Contains(xsS, " ") && !strings.HasPrefix(xsS, "(") {
 		xsS = "(" + xsS + ")"
 	}
+	if kname != "" {
+		// for i[, x] := range xs (irSpecExt.RangeKeyTy): the index is threaded through the generated
+		// function (0, i + 1); `xs[i]` / `&xs[i]` in the body are the current element, provided the body
+		// does not assign xs.
+		lk, kty := irIdent(kname), t.spec.Ext.RangeKeyTy
+		if lv == "_" {
+			lv = lk + "_elem__"
+		}
+		set := map[string]bool{}
+		t.assigned(x.Body.List, env, set)
+		collAssigned := false
+		if ck, err := t.lhsKey(x.X, env); err == nil && set[ck] {
+			collAssigned = true
+		}
+		collSrc := t.r.Src(x.X)
+		return t.loopFn(x.Body.List, env, ind, next,
+			fmt.Sprintf("(%s : %s)", lk, t.leanTy(kty)), fmt.Sprintf("(%s + 1)", lk), fmt.Sprintf("(0 : %s)", t.leanTy(kty)),
+			domTy, "[]", lv+" :: rest__", "rest__", xsS,
+			func(e *irEnv) *irEnv {
+				e = e.with(kname, irVar{Lean: lk, Ty: kty, Depth: e.depth, Param: true})
+				if vname != "_" {
+					e = e.with(vname, irVar{Lean: lv, Ty: elem, Depth: e.depth, Param: true})
+				}
+				if !collAssigned {
+					t.ranges = append(t.ranges, irRange{CollSrc: collSrc, Key: kname, ElemLean: lv, ElemTy: elem})
+				}
+				return e
+			})
+	}
 	return t.loopFn(x.Body.List, env, ind, next, "", "", "", domTy, "[]", lv+" :: rest__", "rest__", xsS,
 		func(e *irEnv) *irEnv {
 			if vname == "_" {
@@ -1616,6 +2550,62 @@ func (t *irT) rangeStmt(x *ast.RangeStmt, env *irEnv, ind string, next irNext) (
 			}
 			return e.with(vname, irVar{Lean: lv, Ty: elem, Depth: e.depth, Param: true})
 		})
+}
+
+// rangeKVStmt handles `for k, v := range m` when m's type is configured in irSpec.RangeKV (a Go map
+// modelled as a Lean list of pairs). handled = false: not such a loop, the caller goes on as before.
+func (t *irT) rangeKVStmt(x *ast.RangeStmt, env *irEnv, ind string, next irNext) (string, bool, error) {
+	xs, err := t.tryExpr(x.X, env)
+	if err != nil {
+		return "", false, nil
+	}
+	kv, ok := t.spec.RangeKV[xs.Ty]
+	if !ok {
+		return "", false, nil
+	}
+	name := func(e ast.Expr) (string, error) {
+		if e == nil {
+			return "_", nil
+		}
+		id, ok := e.(*ast.Ident)
+		if !ok {
+			return "", fmt.Errorf("unsupported range variable %s", t.r.Src(e))
+		}
+		if id.Name != "_" && irInEnv(env, id.Name) {
+			return "", fmt.Errorf("range variable %s shadows an outer variable (not supported)", id.Name)
+		}
+		return id.Name, nil
+	}
+	kname, err := name(x.Key)
+	if err != nil {
+		return "", true, err
+	}
+	vname, err := name(x.Value)
+	if err != nil {
+		return "", true, err
+	}
+	lean := func(n string) string {
+		if n == "_" {
+			return "_"
+		}
+		return irIdent(n)
+	}
+	xsS := xs.S
+	if strings.Contains(xsS, " ") && !strings.HasPrefix(xsS, "(") {
+		xsS = "(" + xsS + ")"
+	}
+	s, err := t.loopFn(x.Body.List, env, ind, next, "", "", "", t.leanTy(xs.Ty), "[]",
+		"("+lean(kname)+", "+lean(vname)+") :: rest__", "rest__", xsS,
+		func(e *irEnv) *irEnv {
+			if kname != "_" {
+				e = e.with(kname, irVar{Lean: lean(kname), Ty: kv[0], Depth: e.depth, Param: true})
+			}
+			if vname != "_" {
+				e = e.with(vname, irVar{Lean: lean(vname), Ty: kv[1], Depth: e.depth, Param: true})
+			}
+			return e
+		})
+	return s, true, err
 }
 
 // forStmt handles `for i := a; i < n; i++ { … }` where the body assigns neither i nor n.
@@ -1632,14 +2622,15 @@ func (t *irT) forStmt(x *ast.ForStmt, env *irEnv, ind string, next irNext) (stri
 		return bad("init variable")
 	}
 	ce, ok := x.Cond.(*ast.BinaryExpr)
-	if !ok || ce.Op != token.LSS {
+	down := ok && ce.Op == token.GEQ // for i := a; i >= b; i-- (engineer pipe): fuel a - b + 1, i - 1
+	if !ok || (ce.Op != token.LSS && !down) {
 		return bad("condition")
 	}
 	if id, ok := ce.X.(*ast.Ident); !ok || id.Name != iv.Name {
 		return bad("condition variable")
 	}
 	post, ok := x.Post.(*ast.IncDecStmt)
-	if !ok || post.Tok != token.INC {
+	if !ok || (post.Tok != token.INC && !down) || (post.Tok != token.DEC && down) {
 		return bad("post")
 	}
 	if id, ok := post.X.(*ast.Ident); !ok || id.Name != iv.Name {
@@ -1677,6 +2668,9 @@ func (t *irT) forStmt(x *ast.ForStmt, env *irEnv, ind string, next irNext) (stri
 	})
 	for k := range set {
 		if boundVars[k] {
+			if t.spec.Ext.LenBoundElemSet && t.onlyElemSet(x.Body.List, env, k, ce.Y) {
+				continue
+			}
 			return bad("bound assigned in body")
 		}
 	}
@@ -1694,6 +2688,17 @@ func (t *irT) forStmt(x *ast.ForStmt, env *irEnv, ind string, next irNext) (stri
 	aS := a.S
 	if a.Ty == "lit" {
 		aS = fmt.Sprintf("(%s : %s)", a.S, ity)
+	}
+	if down {
+		if ity != "Int" {
+			return bad("downward loop over a non-Int index")
+		}
+		return t.loopFn(x.Body.List, env, ind, next,
+			fmt.Sprintf("(%s : %s)", li, ity), fmt.Sprintf("(%s - 1)", li), aS,
+			"Nat", "0", "fuel__ + 1", "fuel__", fmt.Sprintf("(%s - %s + 1).toNat", a.S, n.S),
+			func(e *irEnv) *irEnv {
+				return e.with(iv.Name, irVar{Lean: li, Ty: ity, Depth: e.depth, Param: true})
+			})
 	}
 	return t.loopFn(x.Body.List, env, ind, next,
 		fmt.Sprintf("(%s : %s)", li, ity), fmt.Sprintf("(%s + 1)", li), aS,
@@ -1744,26 +2749,143 @@ func irTranslate(r *Repo, fd *ast.FuncDecl, spec *irSpec) (string, []string, err
 			env = env.with(n, irVar{Lean: spec.Params[i].S, Ty: spec.Params[i].Ty, Param: true})
 		}
 	}
-	if fd.Type.Results != nil {
-		for _, f := range fd.Type.Results.List {
-			if len(f.Names) > 0 {
+	ftype, fbody := fd.Type, fd.Body.List
+	var closurePrefix []ast.Stmt
+	var bindClosureParams func(env *irEnv) (*irEnv, string)
+	if spec.Closure != nil {
+		// the body must be exactly `return func(…) … { … }`
+		var fl *ast.FuncLit
+		if spec.Closure.Local {
+			for i, s := range fbody {
+				if as, ok := s.(*ast.AssignStmt); ok && as.Tok == token.DEFINE && len(as.Lhs) == 1 && len(as.Rhs) == 1 {
+					if f, ok := as.Rhs[0].(*ast.FuncLit); ok {
+						fl, closurePrefix = f, fbody[:i]
+						break
+					}
+				}
+			}
+		} else if len(fbody) == 1 {
+			if rs, ok := fbody[0].(*ast.ReturnStmt); ok && len(rs.Results) == 1 {
+				fl, _ = rs.Results[0].(*ast.FuncLit)
+			}
+		}
+		if fl == nil {
+			return fail("body is not a single `return func(…) {…}` (or has no local closure)")
+		}
+		var cnames []string
+		if fl.Type.Params != nil {
+			for _, f := range fl.Type.Params.List {
+				if len(f.Names) == 0 {
+					cnames = append(cnames, "_")
+				}
+				for _, n := range f.Names {
+					cnames = append(cnames, n.Name)
+				}
+			}
+		}
+		if len(cnames) != len(spec.Closure.Params) {
+			return fail("closure has %d parameters, expected %d", len(cnames), len(spec.Closure.Params))
+		}
+		bindClosureParams = func(env *irEnv) (*irEnv, string) {
+			out := ""
+			for i, n := range cnames {
+				cp := spec.Closure.Params[i]
+				switch {
+				case n != "_" && cp.S != "" && spec.Closure.AsLocals:
+					env = env.with(n, irVar{Lean: irIdent(n), Ty: cp.Ty})
+					out += fmt.Sprintf("  let %s : %s := %s\n", irIdent(n), t.leanTy(cp.Ty), cp.S)
+				case n != "_" && cp.S != "":
+					env = env.with(n, irVar{Lean: cp.S, Ty: cp.Ty, Param: true})
+				case n != "_":
+					delete(env.vars, n) // an unusable closure parameter hides an outer one of the same name
+				}
+			}
+			return env, out
+		}
+		if !spec.Closure.Local && !spec.Closure.AsLocals {
+			env, _ = bindClosureParams(env)
+			bindClosureParams = nil
+		}
+		ftype, fbody = fl.Type, fl.Body.List
+	}
+	if spec.DeferInline {
+		nb, db, err := irInlineDefer(r, fbody)
+		if err != nil {
+			return fail("%v", err)
+		}
+		fbody, t.deferB = nb, db
+	}
+	if spec.Ext.GoInline != nil {
+		nb, err := irInlineGo(r, fbody, spec.Ext.GoInline)
+		if err != nil {
+			return fail("%v", err)
+		}
+		fbody = nb
+	}
+	namedPre := ""
+	if ftype.Results != nil {
+		for _, f := range ftype.Results.List {
+			if len(f.Names) > 0 && spec.Ext.NamedResults == "" {
 				return fail("named results not supported")
+			}
+			if len(f.Names) > 0 && spec.Ext.NamedResults == "bind" {
+				ty, err := t.goType(f.Type)
+				if err != nil {
+					return fail("%v", err)
+				}
+				z, ok := irZero(ty)
+				if zz, ok2 := spec.Zero[ty]; ok2 {
+					z, ok = zz, true
+				}
+				if !ok {
+					return fail("no zero value for named result of type %s", ty)
+				}
+				for _, n := range f.Names {
+					env = env.with(n.Name, irVar{Lean: irIdent(n.Name), Ty: ty})
+					namedPre += fmt.Sprintf("  let %s : %s := %s\n", irIdent(n.Name), t.leanTy(ty), z)
+				}
 			}
 		}
 	}
-	pre := ""
+	pre := namedPre
 	for _, s := range spec.State {
 		env = env.with("§"+s.Var, irVar{Lean: s.Var, Ty: s.Ty})
 		pre += fmt.Sprintf("  let %s : %s := %s\n", s.Var, t.leanTy(s.Ty), s.Fmt)
 	}
+	if spec.Closure != nil && spec.Closure.Local {
+		// translate the statements in front of the closure only to learn the variables in scope
+		penv := env.push()
+		for _, s := range closurePrefix {
+			cur := penv
+			if _, err := t.stmt(s, penv, "  ", func(e2 *irEnv, ind string) (string, error) { cur = e2; return "", nil }); err != nil {
+				return fail("statements in front of the closure: %v", err)
+			}
+			penv = cur
+		}
+		for _, key := range penv.order {
+			v := penv.vars[key]
+			if _, known := env.vars[key]; known || v.Param || strings.HasPrefix(key, "§") {
+				continue
+			}
+			if term, ok := spec.Closure.FreeByTy[v.Ty]; ok {
+				env = env.with(key, irVar{Lean: term, Ty: v.Ty, Param: true})
+			}
+		}
+		t.skipped, t.aux, t.guards, t.pre = nil, nil, nil, nil
+	}
+	if bindClosureParams != nil {
+		var cpre string
+		env, cpre = bindClosureParams(env)
+		pre += cpre
+	}
 	var k irK
-	if fd.Type.Results == nil || len(fd.Type.Results.List) == 0 {
+	if ftype.Results == nil || len(ftype.Results.List) == 0 {
 		k = func(ind string) (string, error) {
 			r, err := spec.Ret(nil)
 			return ind + r + "\n", err
 		}
 	}
-	body, err := t.stmts(fd.Body.List, env.push(), "  ", k)
+	body, err := t.stmts(fbody, env.push(), "  ", k)
 	if err != nil {
 		return fail("%v", err)
 	}
@@ -1774,6 +2896,44 @@ func irTranslate(r *Repo, fd *ast.FuncDecl, spec *irSpec) (string, []string, err
 	}
 	fmt.Fprintf(&sb, "def %s %s : %s :=\n%s%s", spec.Name, spec.Binders, spec.RetTy, pre, body)
 	return sb.String(), t.skipped, nil
+}
+
+// irInlineGo implements irSpecExt.GoInline on a copy of the statement list (the parsed file is shared
+// with the other extractors and is not modified).
+func irInlineGo(r *Repo, body []ast.Stmt, pred func(string, *ast.GoStmt) bool) ([]ast.Stmt, error) {
+	out := make([]ast.Stmt, 0, len(body))
+	for i, s := range body {
+		g, ok := s.(*ast.GoStmt)
+		if !ok || !pred(r.Src(s), g) {
+			out = append(out, s)
+			continue
+		}
+		fl, ok := g.Call.Fun.(*ast.FuncLit)
+		if !ok || len(g.Call.Args) != 0 || (fl.Type.Params != nil && len(fl.Type.Params.List) != 0) ||
+			(fl.Type.Results != nil && len(fl.Type.Results.List) != 0) {
+			return nil, fmt.Errorf("go statement is not `go func() {…}()`: %s", r.Src(s))
+		}
+		bad := false
+		ast.Inspect(fl.Body, func(n ast.Node) bool {
+			switch n.(type) {
+			case *ast.FuncLit:
+				return false
+			case *ast.ReturnStmt, *ast.GoStmt, *ast.DeferStmt:
+				bad = true
+			}
+			return true
+		})
+		if bad {
+			return nil, fmt.Errorf("return / go / defer inside an inlined goroutine body: %s", r.Src(s))
+		}
+		for _, rest := range body[i+1:] {
+			if _, ok := rest.(*ast.ReturnStmt); !ok {
+				return nil, fmt.Errorf("statement after an inlined go statement: %s", r.Src(rest))
+			}
+		}
+		out = append(out, fl.Body)
+	}
+	return out, nil
 }
 
 // irEmit translates and writes the definitions with a doc comment listing what was ignored.
@@ -1822,3 +2982,515 @@ func irPrefixIgnore(prefixes ...string) func(string, ast.Stmt) bool {
 }
 
 var errUnsupportedReturn = fmt.Errorf("unsupported return values")
+
+// onlyElemSet (irSpecExt.LenBoundElemSet, engineer auth11): the loop bound is exactly `len(xs)` with xs
+// the variable / state field of environment key k, and every statement of the body that assigns k is a
+// plain element assignment `xs[j] = v` (so the length of xs is the same in every iteration).
+func (t *irT) onlyElemSet(body []ast.Stmt, env *irEnv, k string, bound ast.Expr) bool {
+	ce, ok := irUnparen(bound).(*ast.CallExpr)
+	if !ok || len(ce.Args) != 1 {
+		return false
+	}
+	if id, ok := ce.Fun.(*ast.Ident); !ok || id.Name != "len" {
+		return false
+	}
+	if bk, err := t.lhsKey(ce.Args[0], env); err != nil || bk != k {
+		return false
+	}
+	if _, isIdx := irUnparen(ce.Args[0]).(*ast.IndexExpr); isIdx {
+		return false
+	}
+	good := true
+	var walk func(l []ast.Stmt)
+	walk = func(l []ast.Stmt) {
+		for _, s := range l {
+			switch x := s.(type) {
+			case *ast.AssignStmt:
+				for _, lh := range x.Lhs {
+					if lk, err := t.lhsKey(lh, env); err == nil && lk == k {
+						if _, isIdx := irUnparen(lh).(*ast.IndexExpr); !isIdx || x.Tok != token.ASSIGN {
+							good = false
+						}
+					}
+				}
+			case *ast.BlockStmt:
+				walk(x.List)
+			case *ast.IfStmt:
+				if x.Init != nil {
+					walk([]ast.Stmt{x.Init})
+				}
+				walk(x.Body.List)
+				walk(irElse(x))
+			case *ast.ForStmt:
+				if x.Init != nil {
+					walk([]ast.Stmt{x.Init})
+				}
+				if x.Post != nil {
+					walk([]ast.Stmt{x.Post})
+				}
+				walk(x.Body.List)
+			case *ast.RangeStmt:
+				walk(x.Body.List)
+			default:
+				// any other statement kind (calls, ++, switch, select …) that may assign k: not accepted
+				one := map[string]bool{}
+				t.assigned([]ast.Stmt{s}, env, one)
+				if one[k] {
+					good = false
+				}
+			}
+		}
+	}
+	walk(body)
+	return good
+}
+
+// irArgVar: n when s is exactly "%[n]s" (an irLet.Var that names the call's n-th formatted argument), else 0.
+func irArgVar(s string) int {
+	if len(s) == 5 && strings.HasPrefix(s, "%[") && strings.HasSuffix(s, "]s") && s[2] >= '1' && s[2] <= '9' {
+		return int(s[2] - '0')
+	}
+	return 0
+}
+
+// ---------------------------------------------------------------------------
+// engineer mux (C01/C05/C12): inlined local closures (irSpecExt.InlineClosures) and composite
+// literals (irSpecExt.Composite). Nothing below runs unless one of the two is configured.
+
+// muxExpr: a local closure used as a value (unsupported: it would escape), `T{…}` and `&T{…}`.
+func (t *irT) muxExpr(e ast.Expr, env *irEnv) (irTerm, bool, error) {
+	switch x := e.(type) {
+	case *ast.Ident:
+		if v, ok := env.vars[x.Name]; ok && v.Closure != nil {
+			return irTerm{}, false, fmt.Errorf("local closure %s used as a value or in an unsupported call position", x.Name)
+		}
+	case *ast.CallExpr:
+		if _, lit := t.closureCall(x, env); lit != nil {
+			return irTerm{}, false, fmt.Errorf("call of the local closure in an unsupported position: %s", t.r.Src(x))
+		}
+	case *ast.UnaryExpr:
+		if cl, ok := irUnparen(x.X).(*ast.CompositeLit); ok && x.Op == token.AND && cl.Type != nil {
+			if c, ok := t.spec.Ext.Composite["&"+t.r.Src(cl.Type)]; ok {
+				v, err := t.composite(cl, c, env)
+				return v, true, err
+			}
+		}
+	case *ast.CompositeLit:
+		if x.Type != nil {
+			if c, ok := t.spec.Ext.Composite[t.r.Src(x.Type)]; ok {
+				v, err := t.composite(x, c, env)
+				return v, true, err
+			}
+		}
+	}
+	return irTerm{}, false, nil
+}
+
+func (t *irT) composite(cl *ast.CompositeLit, c irComposite, env *irEnv) (irTerm, error) {
+	given := map[string]string{}
+	for _, el := range cl.Elts {
+		kv, ok := el.(*ast.KeyValueExpr)
+		if !ok {
+			return irTerm{}, fmt.Errorf("composite literal without field names: %s", t.r.Src(cl))
+		}
+		id, ok := kv.Key.(*ast.Ident)
+		if !ok {
+			return irTerm{}, fmt.Errorf("composite literal key %s", t.r.Src(kv.Key))
+		}
+		known := false
+		for _, k := range c.Keys {
+			known = known || k == id.Name
+		}
+		if _, dup := given[id.Name]; dup || !known {
+			return irTerm{}, fmt.Errorf("composite literal: unknown or repeated field %s in %s", id.Name, t.r.Src(cl))
+		}
+		v, err := t.expr(kv.Value, env)
+		if err != nil {
+			return irTerm{}, err
+		}
+		if want, ok := c.Types[id.Name]; ok && v.Ty != want && !(v.Ty == "lit" && irIsNum(want)) {
+			return irTerm{}, fmt.Errorf("composite literal: field %s has type %s, expected %s (%s)", id.Name, v.Ty, want, t.r.Src(cl))
+		}
+		if w, ok := c.Wrap[id.Name]; ok {
+			v.S = fmt.Sprintf(w, v.S)
+		}
+		given[id.Name] = v.S
+	}
+	args := make([]string, len(c.Keys))
+	for i, k := range c.Keys {
+		if s, ok := given[k]; ok {
+			args[i] = s
+		} else if z, ok := c.Zero[k]; ok {
+			args[i] = z
+		} else {
+			return irTerm{}, fmt.Errorf("composite literal: no zero value configured for absent field %s (%s)", k, t.r.Src(cl))
+		}
+	}
+	return irTerm{irFmt(c.Fmt, args), c.Ty}, nil
+}
+
+// closureCall: e (parentheses stripped) is a call `f(args)` of a local closure.
+func (t *irT) closureCall(e ast.Expr, env *irEnv) (*ast.CallExpr, *ast.FuncLit) {
+	ce, ok := irUnparen(e).(*ast.CallExpr)
+	if !ok {
+		return nil, nil
+	}
+	id, ok := ce.Fun.(*ast.Ident)
+	if !ok {
+		return nil, nil
+	}
+	if v, ok := env.vars[id.Name]; ok && v.Closure != nil {
+		return ce, v.Closure
+	}
+	return nil, nil
+}
+
+// closureStmt handles the definition of a local closure and the supported call shapes.
+func (t *irT) closureStmt(s ast.Stmt, env *irEnv, ind string, next irNext) (string, bool, error) {
+	if t.ignorable(s) {
+		return "", false, nil
+	}
+	switch x := s.(type) {
+	case *ast.AssignStmt:
+		if len(x.Lhs) != 1 || len(x.Rhs) != 1 {
+			return "", false, nil
+		}
+		if lit, ok := x.Rhs[0].(*ast.FuncLit); ok { // f := func(…) … { … }
+			id, isId := x.Lhs[0].(*ast.Ident)
+			if !isId || x.Tok != token.DEFINE || irInEnv(env, id.Name) {
+				return "", true, fmt.Errorf("unsupported closure definition %s", t.r.Src(x.Lhs[0]))
+			}
+			if lit.Type.Results != nil && (len(lit.Type.Results.List) > 1 || len(lit.Type.Results.List[0].Names) > 0) {
+				return "", true, fmt.Errorf("closure %s: at most one unnamed result supported", id.Name)
+			}
+			if irMentions(lit.Body.List, id.Name) {
+				return "", true, fmt.Errorf("closure %s is recursive", id.Name)
+			}
+			t.skipped = append(t.skipped, "(local closure, inlined at its calls) "+id.Name+" := func…")
+			out, err := next(env.with(id.Name, irVar{Lean: "closure__" + id.Name, Ty: "closure", Depth: env.depth, Closure: lit}), ind)
+			return out, true, err
+		}
+		ce, lit := t.closureCall(x.Rhs[0], env)
+		if lit == nil {
+			return "", false, nil
+		}
+		if x.Tok != token.DEFINE && x.Tok != token.ASSIGN {
+			return "", true, fmt.Errorf("unsupported assignment %s", t.r.Src(x))
+		}
+		key, err := t.lhsKey(x.Lhs[0], env)
+		if err != nil {
+			return "", true, err
+		}
+		if _, isId := x.Lhs[0].(*ast.Ident); !isId {
+			return "", true, fmt.Errorf("unsupported target of a closure result: %s", t.r.Src(x.Lhs[0]))
+		}
+		out, err := t.inlineClosure(ce, lit, env, ind, func(vals []irTerm, ind string) (string, error) {
+			if key == "" {
+				return next(env, ind)
+			}
+			if len(vals) != 1 {
+				return "", fmt.Errorf("closure without result used as a value: %s", t.r.Src(x))
+			}
+			ls, env2, err := t.bind(key, x.Tok == token.DEFINE, vals[0], env, ind)
+			if err != nil {
+				return "", err
+			}
+			r, err := next(env2, ind)
+			return ls + r, err
+		})
+		return out, true, err
+	case *ast.ExprStmt:
+		ce, lit := t.closureCall(x.X, env)
+		if lit == nil {
+			return "", false, nil
+		}
+		out, err := t.inlineClosure(ce, lit, env, ind, func(_ []irTerm, ind string) (string, error) { return next(env, ind) })
+		return out, true, err
+	case *ast.IfStmt:
+		if x.Init != nil {
+			return "", false, nil
+		}
+		// the condition is a closure call under any number of `!` / parentheses: evaluate it first
+		inner, neg := irUnparen(x.Cond), 0
+		for {
+			ue, ok := inner.(*ast.UnaryExpr)
+			if !ok || ue.Op != token.NOT {
+				break
+			}
+			inner, neg = irUnparen(ue.X), neg+1
+		}
+		ce, lit := t.closureCall(inner, env)
+		if lit == nil {
+			return "", false, nil
+		}
+		t.nclos++
+		tmp := fmt.Sprintf("c%d__", t.nclos)
+		out, err := t.inlineClosure(ce, lit, env, ind, func(vals []irTerm, ind string) (string, error) {
+			if len(vals) != 1 || vals[0].Ty != "Bool" {
+				return "", fmt.Errorf("closure result used as a condition is not a Bool: %s", t.r.Src(x.Cond))
+			}
+			ls := fmt.Sprintf("%slet %s : Bool := %s\n", ind, tmp, vals[0].S)
+			// the temporary is not a Go local: it is only mentioned by the rewritten condition
+			env2 := env.with(tmp, irVar{Lean: tmp, Ty: "Bool", Depth: env.depth, Param: true})
+			var cond ast.Expr = &ast.Ident{Name: tmp}
+			for i := 0; i < neg; i++ {
+				cond = &ast.UnaryExpr{Op: token.NOT, X: cond}
+			}
+			r, err := t.ifStmt(&ast.IfStmt{If: x.If, Cond: cond, Body: x.Body, Else: x.Else}, env2, ind, next)
+			return ls + r, err
+		})
+		return out, true, err
+	}
+	return "", false, nil
+}
+
+// inlineClosure translates the body of lit at the call ce; `cont` receives the values of the `return`
+// reached (one call per return statement of the body: the continuation is duplicated like after an
+// if whose branches return).
+func (t *irT) inlineClosure(ce *ast.CallExpr, lit *ast.FuncLit, env *irEnv, ind string,
+	cont func(vals []irTerm, ind string) (string, error)) (string, error) {
+	if ce.Ellipsis.IsValid() {
+		return "", fmt.Errorf("variadic closure call %s", t.r.Src(ce))
+	}
+	var pnames []string
+	var ptypes []ast.Expr
+	if lit.Type.Params != nil {
+		for _, f := range lit.Type.Params.List {
+			if len(f.Names) == 0 {
+				return "", fmt.Errorf("closure with unnamed parameters: %s", t.r.Src(ce))
+			}
+			for _, n := range f.Names {
+				pnames, ptypes = append(pnames, n.Name), append(ptypes, f.Type)
+			}
+		}
+	}
+	if len(pnames) != len(ce.Args) {
+		return "", fmt.Errorf("closure call %s: %d arguments for %d parameters", t.r.Src(ce), len(ce.Args), len(pnames))
+	}
+	hasResult := lit.Type.Results != nil && len(lit.Type.Results.List) == 1
+	resTy := ""
+	if hasResult {
+		ty, err := t.goType(lit.Type.Results.List[0].Type)
+		if err != nil {
+			return "", err
+		}
+		resTy = ty
+	}
+	out := ""
+	benv := env.push()
+	for i, n := range pnames {
+		a, err := t.expr(ce.Args[i], env)
+		if err != nil {
+			return "", err
+		}
+		ty, err := t.goType(ptypes[i])
+		if err != nil {
+			return "", err
+		}
+		if a.Ty != ty && !(a.Ty == "lit" && irIsNum(ty)) && a.Ty != "nil" {
+			return "", fmt.Errorf("closure call %s: argument %d has type %s, parameter %s", t.r.Src(ce), i+1, a.Ty, ty)
+		}
+		if n == "_" {
+			continue
+		}
+		if irInEnv(env, n) {
+			return "", fmt.Errorf("closure parameter %s shadows a variable at the call %s (not supported)", n, t.r.Src(ce))
+		}
+		if a.Ty == "nil" {
+			return "", fmt.Errorf("closure call %s: nil argument not supported", t.r.Src(ce))
+		}
+		out += fmt.Sprintf("%slet %s : %s := %s\n", ind, irIdent(n), t.leanTy(ty), a.S)
+		benv = benv.with(n, irVar{Lean: irIdent(n), Ty: ty, Depth: benv.depth})
+	}
+	if len(t.guards) != 0 || len(t.pre) != 0 {
+		return "", fmt.Errorf("partial / effectful call in the arguments of the closure call %s", t.r.Src(ce))
+	}
+	if hasResult && !t.terminates(lit.Body.List) {
+		return "", fmt.Errorf("closure body may fall off its end: %s", t.r.Src(ce))
+	}
+	savedLoop, savedRetK, savedRanges := t.loop, t.retK, t.ranges
+	enter := func() { t.loop, t.ranges = nil, nil }
+	leave := func() { t.loop, t.retK, t.ranges = savedLoop, savedRetK, savedRanges }
+	var myK func(vals []irTerm, ind string) (string, error)
+	myK = func(vals []irTerm, ind string) (string, error) {
+		if hasResult {
+			if len(vals) != 1 {
+				return "", fmt.Errorf("closure returns %d values", len(vals))
+			}
+			if vals[0].Ty == "lit" && irIsNum(resTy) {
+				vals[0].Ty = resTy
+			}
+			if vals[0].Ty != resTy {
+				return "", fmt.Errorf("closure returns %s, declared %s", vals[0].Ty, resTy)
+			}
+		} else if len(vals) != 0 {
+			return "", fmt.Errorf("closure without result returns a value")
+		}
+		leave() // the continuation belongs to the caller's context
+		r, err := cont(vals, ind)
+		enter()
+		t.retK = myK
+		return r, err
+	}
+	enter()
+	t.retK = myK
+	var k irK
+	if !hasResult {
+		k = func(ind string) (string, error) { return myK(nil, ind) }
+	}
+	body, err := t.stmts(lit.Body.List, benv.push(), ind, k)
+	leave()
+	if err != nil {
+		return "", err
+	}
+	return out + body, nil
+}
+
+// closureEffects (for `assigned`): every call of a local closure in s — nested statements included,
+// bodies of function literals excluded — assigns what the closure's body assigns.
+func (t *irT) closureEffects(s ast.Stmt, outer *irEnv, walk func([]ast.Stmt)) {
+	ast.Inspect(s, func(n ast.Node) bool {
+		switch x := n.(type) {
+		case *ast.FuncLit:
+			return false
+		case *ast.AssignStmt: // a closure defined inside the analysed statements is not in `outer` yet
+			if len(x.Lhs) == 1 && len(x.Rhs) == 1 && x.Tok == token.DEFINE {
+				if lit, ok := x.Rhs[0].(*ast.FuncLit); ok {
+					if id, ok := x.Lhs[0].(*ast.Ident); ok {
+						if t.closSeen == nil {
+							t.closSeen = map[string]*ast.FuncLit{}
+						}
+						t.closSeen[id.Name] = lit
+					}
+				}
+			}
+		case *ast.CallExpr:
+			if id, ok := x.Fun.(*ast.Ident); ok {
+				if v, ok := outer.vars[id.Name]; ok && v.Closure != nil {
+					walk(v.Closure.Body.List) // closures are not recursive (checked at the definition)
+				} else if lit, seen := t.closSeen[id.Name]; seen && !ok {
+					walk(lit.Body.List)
+				}
+			}
+		}
+		return true
+	})
+}
+
+// irInlineDefer (irSpec.DeferInline, resil): the first top-level `defer func() { B }()` of the body is
+// replaced by the marker statement `§defer()`, and every `return e` after it (not inside a nested function
+// literal) by `{ B; return e }` — Go evaluates e before B runs, so e must not mention a variable that B
+// assigns (checked). B also runs when a partial call panics after the marker (panicBranch).
+func irInlineDefer(r *Repo, body []ast.Stmt) ([]ast.Stmt, []ast.Stmt, error) {
+	idx := -1
+	var B []ast.Stmt
+	for i, s := range body {
+		ds, ok := s.(*ast.DeferStmt)
+		if !ok {
+			continue
+		}
+		fl, ok := ds.Call.Fun.(*ast.FuncLit)
+		if !ok || len(ds.Call.Args) != 0 || (fl.Type.Params != nil && len(fl.Type.Params.List) != 0) {
+			continue
+		}
+		idx, B = i, fl.Body.List
+		break
+	}
+	if idx < 0 {
+		return nil, nil, fmt.Errorf("no `defer func() {…}()` at the top level of the body")
+	}
+	assignedInB := map[string]bool{}
+	hasReturn := false
+	for _, s := range B {
+		ast.Inspect(s, func(n ast.Node) bool {
+			switch x := n.(type) {
+			case *ast.AssignStmt:
+				for _, l := range x.Lhs {
+					if id, ok := l.(*ast.Ident); ok {
+						assignedInB[id.Name] = true
+					}
+				}
+			case *ast.IncDecStmt:
+				if id, ok := x.X.(*ast.Ident); ok {
+					assignedInB[id.Name] = true
+				}
+			case *ast.ReturnStmt:
+				hasReturn = true
+			}
+			return true
+		})
+	}
+	if hasReturn {
+		return nil, nil, fmt.Errorf("deferred closure contains a return (not supported)")
+	}
+	var bad error
+	var rw func(s ast.Stmt) ast.Stmt
+	rwList := func(l []ast.Stmt) []ast.Stmt {
+		out := make([]ast.Stmt, len(l))
+		for i, s := range l {
+			out[i] = rw(s)
+		}
+		return out
+	}
+	rw = func(s ast.Stmt) ast.Stmt {
+		switch x := s.(type) {
+		case *ast.ReturnStmt:
+			for _, e := range x.Results {
+				ast.Inspect(e, func(n ast.Node) bool {
+					if id, ok := n.(*ast.Ident); ok && assignedInB[id.Name] {
+						bad = fmt.Errorf("`%s` mentions %s, which the deferred closure assigns", r.Src(x), id.Name)
+					}
+					return true
+				})
+			}
+			return &ast.BlockStmt{List: append(append([]ast.Stmt(nil), B...), x)}
+		case *ast.BlockStmt:
+			return &ast.BlockStmt{List: rwList(x.List)}
+		case *ast.IfStmt:
+			n := *x
+			n.Body = &ast.BlockStmt{List: rwList(x.Body.List)}
+			if x.Else != nil {
+				n.Else = rw(x.Else)
+			}
+			return &n
+		case *ast.ForStmt:
+			n := *x
+			n.Body = &ast.BlockStmt{List: rwList(x.Body.List)}
+			return &n
+		case *ast.RangeStmt:
+			n := *x
+			n.Body = &ast.BlockStmt{List: rwList(x.Body.List)}
+			return &n
+		case *ast.SwitchStmt:
+			n := *x
+			nb := &ast.BlockStmt{}
+			for _, c := range x.Body.List {
+				cc := *(c.(*ast.CaseClause))
+				cc.Body = rwList(cc.Body)
+				nb.List = append(nb.List, &cc)
+			}
+			n.Body = nb
+			return &n
+		case *ast.SelectStmt:
+			n := *x
+			nb := &ast.BlockStmt{}
+			for _, c := range x.Body.List {
+				cc := *(c.(*ast.CommClause))
+				cc.Body = rwList(cc.Body)
+				nb.List = append(nb.List, &cc)
+			}
+			n.Body = nb
+			return &n
+		case *ast.DeferStmt:
+			bad = fmt.Errorf("a second defer after the inlined one (not supported)")
+		}
+		return s
+	}
+	out := append([]ast.Stmt(nil), body[:idx]...)
+	out = append(out, &ast.ExprStmt{X: &ast.CallExpr{Fun: ast.NewIdent("§defer")}})
+	out = append(out, rwList(body[idx+1:])...)
+	if bad != nil {
+		return nil, nil, bad
+	}
+	return out, B, nil
+}
